@@ -370,6 +370,52 @@ func hasTrusted(v reflect.Value, depth int) bool {
 	return false
 }
 
+// dupKeyText reports whether a map inside v has two keys with the same key
+// string (the order sort.Slice gives them is unspecified).
+func dupKeyText(v reflect.Value, depth int) bool {
+	if depth > 12 {
+		return false
+	}
+	switch v.Kind() {
+	case reflect.Interface, reflect.Pointer:
+		return !v.IsNil() && dupKeyText(v.Elem(), depth+1)
+	case reflect.Slice, reflect.Array:
+		for i := 0; i < v.Len(); i++ {
+			if dupKeyText(v.Index(i), depth+1) {
+				return true
+			}
+		}
+	case reflect.Struct:
+		for i := 0; i < v.NumField(); i++ {
+			if v.Type().Field(i).PkgPath == "" && dupKeyText(v.Field(i), depth+1) {
+				return true
+			}
+		}
+	case reflect.Map:
+		seen := map[string]bool{}
+		it := v.MapRange()
+		for it.Next() {
+			var txt string
+			switch k := it.Key().Interface().(type) {
+			case fmt.Stringer:
+				txt, _ = protectText(k.String)
+			case native.EnvStringer:
+				txt, _ = protectText(func() string { return k.String(nil) })
+			default:
+				txt, _ = verifhook.ToString(rtEnv, k)
+			}
+			if seen[txt] {
+				return true
+			}
+			seen[txt] = true
+			if dupKeyText(it.Value(), depth+1) {
+				return true
+			}
+		}
+	}
+	return false
+}
+
 // sameData compares two decoded JSON trees; numbers as float64, a node {__date: ms}
 // of the JavaScript side against an RFC 3339 string of the expected side.
 func sameData(got, want any) bool {
@@ -551,6 +597,10 @@ func init() {
 					if verdict == "panic" && strings.Contains(out, "called using nil") {
 						continue
 					}
+					if dupKeyText(sv, 0) {
+						c.Count("duplicate-key-text") // the order of equal keys is unspecified (sort.Slice)
+						continue
+					}
 					o := &oracle{}
 					enc := encCtx(sv, nil, o)
 					res := verdict
@@ -641,7 +691,11 @@ func init() {
 					}
 					if cd.name == "JSON" {
 						if dvv != "trusted" && !json.Valid([]byte(out)) {
-							fail("json-invalid", d)
+							if divergentValue(v, 0) == "nonfinite-float" {
+								fail("json-nonfinite-float", d)
+							} else {
+								fail("json-invalid", d)
+							}
 							continue
 						}
 						if dvv != "" {
